@@ -121,7 +121,21 @@ impl ROut {
                 if self.schema_sig.is_none() {
                     self.schema_sig = Some(gen::schema_sig(&b.schema(), false));
                 }
-                self.rows.extend(gen::rows_of(&b));
+                // a run-end encoded column can legitimately denote an astronomical number of rows with a few bytes:
+                // such a batch is valid, but its rows are not materialised
+                if b.num_rows() > 2_000_000 || b.columns().iter().any(|c| gen::exceeds(c.as_ref(), 2_000_000)) {
+                    return self.batches < 100_000;
+                }
+                // reading every value through the safe accessors is part of the validity oracle: a batch that passed
+                // validation but makes an accessor panic is an invalid array
+                match std::panic::catch_unwind(std::panic::AssertUnwindSafe(|| gen::rows_of(&b))) {
+                    Ok(rows) => self.rows.extend(rows),
+                    Err(_) => {
+                        let shape: Vec<String> = b.columns().iter().map(|c| { let d = c.to_data(); format!("{}[len {} off {} children {:?}]", d.data_type(), d.len(), d.offset(), d.child_data().iter().map(|x| (x.len(), x.offset())).collect::<Vec<_>>()) }).collect();
+                        self.invalid = Some(format!("a batch that passed full validation makes a safe accessor panic when its values are read: {}", shape.join("; ")));
+                        return false;
+                    }
+                }
                 // a reader that never stops is a hang as well
                 self.batches < 100_000
             }
